@@ -59,7 +59,14 @@ func init() {
 	}
 }
 
-var c16Prefixes = []string{"s", "q/x", "s-0", "t-", "a/b-c", "m/n/o", "z"}
+// prefixes that sort on either side of the comparer-stressing keys (c16Ordinary) in the slash order AND in the bytewise
+// order of their first 8 bytes (what Pebble's batch skiplist looks at first)
+var c16Prefixes = []string{"s", "q/x", "s-0", "t-", "a/b-c", "m/n/o", "z", "orders-seq", "/orders/seq", "zz", "A"}
+
+// ordinary keys written in the same request as a sequence put: first segments of 8-11 bytes with a later '/', the same
+// 8-byte prefixes with and without '/', neighbours below '/' (gen.go: stressKeys), next to a few short ones
+var c16Ordinary = append([]string{"accounts/alice", "accounts/bob/x", "accounts", "ordersXseq/1", "orders-seq/1", "orders-se/q", "Aaaaaaaaa/x", "zzzzzzzzy/x",
+	"a", "b", "r", "s+", "q/w", "zz", "s", "t"}, stressKeys...)
 var c16Deltas = []uint64{1, 1, 1, 2, 2, 3, 10000000000000000000, 1 << 63, math.MaxUint64 - 1, math.MaxUint64}
 
 func c16Delta(rng *hx.Rng, first bool) uint64 {
@@ -198,7 +205,7 @@ func c16SeqMain(o *hx.Out, f hx.Flags) {
 						w.puts = append(w.puts, p)
 						o.Count("c16:seq-put")
 					case x < 90: // other writes, elsewhere
-						w.puts = append(w.puts, putOp{key: hx.Pick(crng, []string{"a", "b", "r", "s+", "q/w", "zz", "s", "t"}), value: []byte("v")})
+						w.puts = append(w.puts, putOp{key: hx.Pick(crng, c16Ordinary), value: []byte("v")})
 					default:
 						if dirty {
 							pre := hx.Pick(crng, c16Prefixes)
@@ -206,6 +213,16 @@ func c16SeqMain(o *hx.Out, f hx.Flags) {
 							o.Count("c16:plain-key-under-prefix")
 						}
 					}
+				}
+				if crng.Chance(35) {
+					// 1-3 ordinary puts BEFORE the sequence puts of the request (and one after): FindLower then runs on a
+					// batch that already holds them
+					var pre []putOp
+					for j, n := 0, 1+crng.Intn(3); j < n; j++ {
+						pre = append(pre, putOp{key: hx.Pick(crng, c16Ordinary), value: []byte("o")})
+					}
+					w.puts = append(append(pre, w.puts...), putOp{key: hx.Pick(crng, c16Ordinary), value: []byte("o")})
+					o.Count("c16:ordinary-puts-around-sequence-put")
 				}
 				if len(generated) > 0 && crng.Chance(15) {
 					w.dels = append(w.dels, delOp{key: hx.Pick(crng, generated)})
@@ -594,6 +611,9 @@ func c16SubMain(o *hx.Out, f hx.Flags) {
 				}
 				if crng.Chance(5) {
 					p.deltas[0] = math.MaxUint64 // refused: nothing is generated
+				}
+				if crng.Chance(30) {
+					w.puts = append(w.puts, putOp{key: hx.Pick(crng, c16Ordinary), value: []byte("o")}) // before the sequence put
 				}
 				w.puts = append(w.puts, p)
 				if crng.Chance(30) {
